@@ -1,3 +1,4 @@
+import AsyncVerif.Proofs.AggTools
 import AsyncVerif.Proofs.FaithfulTools
 /-!
 # C06 — errors from sources/callables surface unchanged where the stdlib would raise
@@ -122,6 +123,33 @@ theorem C06_iter_sentinel (f : Nat) (sentinel : Val) (fuel : Nat) : Faithful (Im
 
 theorem C06_all (s fuel : Nat) : Faithful (Impl.all s fuel) := faithful_scopedIter s (Std.faithful_allLoop s fuel)
 theorem C06_any (s fuel : Nat) : Faithful (Impl.any s fuel) := faithful_scopedIter s (Std.faithful_anyLoop s fuel)
+
+theorem C06_merge (fn : Option Nat) (reverse : Bool) (srcs : List Nat) (fuel : Nat) :
+    Faithful (Impl.merge fn reverse srcs fuel) :=
+  faithful_tryFinally (Std.faithful_merge fn reverse srcs fuel) (closeAll_quiet srcs)
+
+theorem C06_sum (start : Option Val) (s fuel : Nat) : Faithful (Impl.sum start s fuel) :=
+  faithful_scopedIter s (Std.faithful_sumLoop s fuel _)
+
+theorem C06_min_max (fn : Option Nat) (isMax : Bool) (d : Option Val) (s fuel : Nat) :
+    Faithful (Impl.minmax fn isMax d s fuel) :=
+  faithful_scopedIter s (Std.faithful_minmax fn isMax d s fuel)
+
+theorem C06_reduce (f : Nat) (ini : Option Val) (s fuel : Nat) : Faithful (Impl.reduce f ini s fuel) :=
+  faithful_scopedIter s (Std.faithful_reduce f ini s fuel)
+
+theorem C06_list (s fuel : Nat) : Faithful (Impl.list s fuel) := by
+  unfold Impl.list; faith [Std.faithful_collectAll s fuel]
+
+theorem C06_tuple (s fuel : Nat) : Faithful (Impl.tuple s fuel) := by
+  unfold Impl.tuple; faith [Std.faithful_collectAll s fuel]
+
+theorem C06_sorted (fn : Option Nat) (reverse : Bool) (s fuel : Nat) : Faithful (Impl.sorted fn reverse s fuel) := by
+  unfold Impl.sorted; faith [Std.faithful_collectKeyed fn s fuel, faithful_sortKeyed]
+
+theorem C06_nlargest_nsmallest (largest : Bool) (n : Nat) (fn : Option Nat) (s fuel : Nat) :
+    Faithful (Impl.nBest largest n fn s fuel) :=
+  faithful_scopedIter s (Std.faithful_nBest largest n fn s fuel)
 
 /-! Non-vacuity: a concrete world in which the source of `filter` fails at its third use. -/
 private def w0 : World :=
